@@ -83,6 +83,13 @@ def main(argv=None):
         return 0
     if a.only:
         insts = [i for i in insts if fnmatch.fnmatch(i.name, a.only)]
+    pre = getattr(mod, "PRECHECK", None)
+    if pre is not None:
+        okp, msg = pre(ctx)
+        log("[%s] precheck: %s" % (pid, msg))
+        if not okp:
+            print("BROKEN: precheck failed: %s" % msg)
+            return 2
     known = load_known(pid)
     jobs = a.jobs or int(getattr(mod, "JOBS", 0)) or max(1, core.NJOBS // 2)
     log("[%s] tier=%s instances=%d jobs=%d" % (pid, a.tier, len(insts), jobs))
